@@ -185,7 +185,7 @@ pub fn run(run: &Run) {
     // ---- AMF0 command and data bodies over the C04 forests ----
     let (fs, desc) = forests(thorough);
     run.set("amf0_argument_space", desc);
-    let names = ["connect", "_result", "onStatus", "", "\u{e9}"];
+    let names = ["connect", "_result", "onStatus", "", "\u{e9}", " publish ", "\tplay\n", "\u{a0}x\u{0}", "Connect"];
     let txs: [u64; 5] = [0f64.to_bits(), 1f64.to_bits(), 4294967296f64.to_bits(), 0x7FF8_0000_0000_0000, (-1f64).to_bits()];
     let plain = M::Command { name: "createStream".into(), tx: 4f64.to_bits(), object: V::Null, args: vec![V::Str("ok".into())] };
     let refused_then_ok = AtomicU64::new(0);
